@@ -144,3 +144,23 @@ def write_evidence(prop: str, tier: str, level: str, res: Result | None, wall: f
     path = EVIDENCE_DIR / f"{prop}.json"
     path.write_text(json.dumps(ev, indent=1, sort_keys=False) + "\n")
     return path
+
+
+def depends(res: "Result", rule: str, prog, tier: str, prop: str, accept=None, why: str = "") -> int:
+    """Re-evaluate the rules of property `prop` under `res` as rule `rule`: the machinery this property consumes must be
+    right for this property to hold (a reduction over read_plan is wrong when the plan is).  -> obligations added."""
+    import importlib
+    cache = prog.__dict__.setdefault("_dep_cache", {})
+    if (prop, tier) not in cache:
+        scratch = Result(prop, prog)
+        importlib.import_module(f"{__package__}.rules.{prop.lower()}").run(prog, scratch, tier)
+        cache[(prop, tier)] = scratch
+    n = 0
+    for o in cache[(prop, tier)].obligations:
+        if accept is None or accept(o):
+            ob = res.add(rule, None, None, o.ok, f"[{o.rule}] {o.detail}", construct=o.construct, key=f"{o.rule}:{o.key}", where=o.where)
+            ob.file, ob.line = o.file, o.line
+            n += 1
+    if why:
+        res.notes.append(f"{res.prop}.{rule}: {why}")
+    return n
